@@ -7,6 +7,7 @@ use swc_core::{
         ast::*,
         atoms::{atom, Atom},
         utils::{quote_ident, quote_str},
+        visit::{Visit, VisitWith},
     },
     plugin::errors::HANDLER,
 };
@@ -104,6 +105,17 @@ where
                                             },
                                         )
                                     })
+                                }
+                                // `this` / `super` of the defaults object mean something else
+                                // (or nothing) in the factory the member would be turned into:
+                                // leave such an object to `mergeDefaults`
+                                Prop::Getter(GetterProp {
+                                    body: Some(body), ..
+                                }) if uses_this_or_super(body, true) => None,
+                                Prop::Method(MethodProp { function, .. })
+                                    if uses_this_or_super(&**function, false) =>
+                                {
+                                    None
                                 }
                                 Prop::Getter(GetterProp {
                                     key,
@@ -1354,4 +1366,40 @@ fn extract_type_ann_from_pat(pat: &Pat) -> Option<&TsTypeAnn> {
         Pat::Assign(assign) => extract_type_ann_from_pat(&assign.left),
         _ => None,
     }
+}
+
+
+/// Does the member body refer to `super` (or, when `this_too`, to `this`)? Nested functions and
+/// classes have their own and are not entered; arrows are.
+fn uses_this_or_super<N>(node: &N, this_too: bool) -> bool
+where
+    N: VisitWith<ThisSuperFinder>,
+{
+    let mut finder = ThisSuperFinder {
+        this_too,
+        found: false,
+    };
+    node.visit_children_with(&mut finder);
+    finder.found
+}
+
+struct ThisSuperFinder {
+    this_too: bool,
+    found: bool,
+}
+
+impl Visit for ThisSuperFinder {
+    fn visit_super(&mut self, _: &Super) {
+        self.found = true;
+    }
+    fn visit_this_expr(&mut self, _: &ThisExpr) {
+        if self.this_too {
+            self.found = true;
+        }
+    }
+    fn visit_function(&mut self, _: &Function) {}
+    fn visit_class(&mut self, _: &Class) {}
+    fn visit_getter_prop(&mut self, _: &GetterProp) {}
+    fn visit_setter_prop(&mut self, _: &SetterProp) {}
+    fn visit_method_prop(&mut self, _: &MethodProp) {}
 }
